@@ -337,7 +337,7 @@ def c05_3(ctx):
 _GN = 'abcde'
 
 
-def _gen_data_case(n):
+def _gen_data_case(n, preemptions=0):
     """Every forward-route DAG over n tasks (route i -> j present or not, a
     task with >= 2 inbound routes is 'join: all'), every subset of tasks
     publishing the variable v, every listing order of the unordered upstream
@@ -380,7 +380,13 @@ def _gen_data_case(n):
         w = World([text], sym_upstream_order=True)
         with w:
             wid = w.start('wf')
-            w.run(result_of=lambda ev: ml.Result(data='ok'))
+            if preemptions:
+                from vt.explorer import Explorer
+                ex = Explorer(w, 'C05.G:%d' % n, preemptions=preemptions)
+                ex.result_for = lambda ev: ml.Result(data='ok')
+                ex.run()
+            else:
+                w.run(result_of=lambda ev: ml.Result(data='ok'))
             reach('ran')
             wf = w.wf_ex(wid)
             info = {'text': text, 'signature': sig}
@@ -429,7 +435,8 @@ def _gen_data_case(n):
                      'present or not, joins all), every subset of tasks '
                      'publishing v, every listing order of the unordered '
                      'upstream SELECT; all actions succeed; FIFO',
-            'thorough': 'same over 5 tasks'},
+            'thorough': 'same 4-task shapes, additionally <= 1 '
+                        'out-of-order delivery at any point'},
     stubs=['minidb', 'QueueRPC', 'FakeScheduler', 'FakeExecutor',
            'post-commit queue inline', 'real YAQL'],
     outside='failing tasks, partial joins, nested values (C05.E), more than '
@@ -440,7 +447,7 @@ def c05_g(ctx):
     variable, the value of a maximal publisher among its causal ancestors
     (absent iff none publishes), and so does the workflow output"""
     boot()
-    n = ctx.pick(4, 5)
-    yield Case('%d-tasks' % n, _gen_data_case(n),
+    n = 4
+    yield Case('%d-tasks' % n, _gen_data_case(n, ctx.pick(0, 1)),
                needed=['ran', 'republished-upstream', 'join-seen'],
                max_paths=5000000, shard_depth=ctx.pick(6, 9), procs=14)
